@@ -4,7 +4,11 @@ import ast
 from checks import common
 from gen import classes
 
-REJ = {("KeyError", "trans/header.py:__make_shape"), ("KeyError", "ir/flow_graph.py:__build_project_interval")}
+# rejection signatures the unchanged tree produces on corners of the generators' classes (compiler
+# crashes on unsupported combinations, not silent mis-compilations); anything else on a
+# legal-by-construction spec is reported
+REJ = {("KeyError", "trans/header.py:__make_shape"), ("KeyError", "ir/flow_graph.py:__build_project_interval"),
+       ("AssertionError", "trans/canvas.py:__build_access")}
 
 
 def has_nontrivial_loop_body(text):
@@ -35,13 +39,13 @@ class C06(common.SpecCheck):
                    "known finding OUTONLY-INVERTED is left out by the generators (witness only)"]
 
     def gen(self, rng, k):
-        return classes.gen_mixed(rng)
+        return classes.gen_mixed(rng, [("S", 4), ("O", 4), ("A", 2), ("K", 3), ("T", 4), ("P", 1), ("M", 4)])
 
     def nontrivial(self, spec, meta):
         return True
 
     def judge(self, spec, meta, inputs, results):
-        vs = common.rejection_violations(results, must_accept=True, allowed=REJ)
+        vs = common.rejection_violations(results, must_accept=meta.get("class") != "M", allowed=REJ)
         vs += common.closed_violations(results)
         if not vs:
             # a use-before-def the static pass cannot see still shows up as a NameError when executed
